@@ -308,7 +308,7 @@ impl Run {
         let t0 = Instant::now();
         let (first, last) = match &self.replay {
             Some(r) => {
-                if r.sub != name {
+                if r.sub.replace(' ', "_") != name.replace(' ', "_") {
                     return;
                 }
                 (r.idx, r.idx + 1)
@@ -325,9 +325,12 @@ impl Run {
         let seed = self.seed;
         let prop = self.prop.clone();
         let replaying = self.replay.is_some();
+        crate::abort::set_sub(name);
+        let slot_next = std::sync::atomic::AtomicUsize::new(0);
         std::thread::scope(|s| {
             for _ in 0..nthreads {
                 s.spawn(|| {
+                    crate::abort::claim_slot(slot_next.fetch_add(1, Ordering::Relaxed));
                     let mut l = Local {
                         sample_cap: 3,
                         cur_sub: name.to_string(),
@@ -344,7 +347,9 @@ impl Run {
                         }
                         l.cur_idx = i;
                         let mut rng = Rng::keyed(seed, &prop, name, i);
+                        crate::abort::enter_case(i);
                         let r = guard(|| f(&mut l, i, &mut rng));
+                        crate::abort::leave_case();
                         if let Err(m) = r {
                             *harness_err.lock().unwrap() =
                                 Some(format!("harness panic in {}[{}]: {}", name, i, m));
